@@ -22,7 +22,7 @@ ASSUMPTIONS = ["reference algebra: product = sample second factor, then first fa
                "random source, so composite and reference must agree bit for bit",
                "AppendSampler operands are generated with equal lengths (documented precondition)"]
 BOUNDS = {"quick": {"depth": 1, "n": [1, 2, 3, 5], "k": [0, 1, 2, 3], "history": 3},
-          "thorough": {"depth": 2, "n": [1, 2, 3, 5], "k": [0, 1, 2, 3], "history": 3}}
+          "thorough": {"depth": 2, "n": [1, 2, 3, 5, 7], "k": [0, 1, 2, 3, 4], "history": 4}}
 ITEM_LIMIT = {"quick": 600, "thorough": 1800}
 
 DOMS = {
@@ -327,7 +327,7 @@ def run_item(item):
         except ValueError:
             pass
 
-    tvals = [0.5, 1.0, 0.25]
+    tvals = [0.5, 1.0, 0.25, 0.75]
     for k in BOUNDS[tier]["k"]:
         if fv and k == 0:
             continue
